@@ -218,6 +218,10 @@ namespace Pistache
             memcpy(&(addr6.sin6_addr.s6_addr16), &(in_addr->sin6_addr.s6_addr16),
                    8 * sizeof(uint16_t));
         }
+        else
+        {
+            throw std::invalid_argument("Not an IP socket");
+        }
     }
 
     IP IP::any() { return IP(0, 0, 0, 0); }
